@@ -13,6 +13,10 @@ reg(Prop(
          'current nodes, roots and inner nodes). After every step the whole forest is compared with a back-link-free reference forest: '
          'serialisation, &child.parent()==&node for every node, roots without parent, depth, pre_order (const and mutable), to_root and '
          'level from every node, child_position of every child, front/back/size/empty/reverse iteration, tree::map, ==/!= between all roots. '
+         'A second family of histories (tree-fault-history) uses a value type whose k-th copy after arming throws (there is no cheaper move): 14 operations '
+         '(push/insert value, swap, copy/move assign, copy/move construct, release, pop_back, push_back of a copied subtree, sort with a throwing '
+         'predicate, value(), map) end in an exception in about half of the steps; after every step - thrown or not - every child must point at the '
+         'node listing it, roots have no parent and the number of nodes reachable from the roots equals the number of live values. '
          'distinct = hash of the full operation history text.',
     assumptions=COMMON_ASSUMPTIONS + [
         'side condition: swap is only applied to operands that are distinct and not in an ancestor/descendant relation; move assignment to unrelated operands and to a target whose strict descendant is the source (hoisting), never from an ancestor (that would make a node its own child); copy assignment is applied to any two distinct nodes',
